@@ -143,6 +143,10 @@ Inductive case :=
             (init : list (list Qc)) (seen : option result)
 (* what the sample_ising / sample_qubo mixin of a composite handed to its own sample method *)
 | CEntry (n : nat) (qubo : bool) (h : list lterm) (J : list qterm) (observed : poly)
+(* sample_hising(h, J) / sample_hubo(H) / sample_poly: the polynomial the outermost layer received is
+   the one the user's terms denote (x*x = x, s*s = 1, equal monomials under any key order added,
+   a single-variable key of J added to h) *)
+| CEntryPoly (spin : bool) (raw received : hpoly)
 (* PolyScaleComposite raises ZeroDivisionError exactly when the model says so *)
 | CScaleRaise (scalar : option Qc) (bias_range : prange) (poly_range : option prange) (raised : bool)
 | CStruct (nodes : list label) (edges : list (label * label)) (vars : list label) (quad : list (label * label))
@@ -259,6 +263,9 @@ Definition check (c : case) : bool :=
       check_identity g num_reads (prob_energy pr) vars ls conv init seen
   | CEntry n qubo h J observed =>
       poly_coeff_eqb n (if qubo then from_qubo J else ising_poly h J) observed
+  | CEntryPoly spin raw received =>
+      hpoly_eqb (map (fun t => (if spin then spin_reduce_vars (fst t) else binary_reduce_vars (fst t), snd t)) raw)
+                received
   | CScaleRaise scalar br prr raised =>
       let '(lr, pr) := polyscale_ranges br prr in
       match polyscale_call scalar lr pr [] [] with
